@@ -484,8 +484,8 @@ class World:
             name = name + "_" + str(op["id"])
         pg_name = op["pg"] if assoc in ("VERTEX", "CELL") else None
         expect = "ok"
-        if length > n and dkind not in ("textarr",):
-            expect = "refuse"
+        if length > n and (dkind not in ("textarr",) or assoc in ("VERTEX", "CELL")):
+            expect = "refuse"        # (text on vertices / cells follows the same length rule as numbers since repair dd066da)
         if pg_name is not None:
             # a property group holds one association; the library does not refuse mixing through
             # add_data(property_group=<existing name>), so the generator avoids it (not judged)
@@ -520,7 +520,7 @@ class World:
         if outcome != "ok":
             return outcome
         rec = snapshot.record(ent)
-        want_vals = build.pad(dkind, values, n) if dkind not in ("textarr", "text") else values
+        want_vals = build.pad(dkind, values, n) if (dkind not in ("textarr", "text") or (dkind == "textarr" and assoc in ("VERTEX", "CELL"))) else values
         self.expect_fields(rec, {"name": name, "parent": obj_uid, "kind": "data"}, "add_data")
         if not compare.same(rec["values"], want_vals):
             raise Violation("C01", "live_mismatch", f"add_data values {compare._short(rec['values'])} expected {compare._short(want_vals)}",
@@ -731,7 +731,7 @@ class World:
         elif assoc != "OBJECT" and op["len"] == "long":
             length = n + vr.randint(1, 2)
         values = build.gen_values(vr, "text" if single else dkind, 1 if single else length)
-        expect = "refuse" if (length > n and dkind != "textarr") else "ok"
+        expect = "refuse" if (length > n and (dkind != "textarr" or assoc in ("VERTEX", "CELL"))) else "ok"
         self.touch(h, uid)
         ent = self.ent(h, uid)
         arr = build.np_values("text" if single else dkind, values)
@@ -765,7 +765,7 @@ class World:
             return outcome
         live = snapshot.values_of(ent)
         del ent
-        want = build.pad(dkind, values, n) if dkind != "textarr" else values
+        want = build.pad(dkind, values, n) if (dkind != "textarr" or assoc in ("VERTEX", "CELL")) else values
         if not compare.same(live, want):
             raise Violation("C01", "live_mismatch", f"values after assignment {compare._short(live)} expected {compare._short(want)}",
                             {"field": "values", "where": "set_values", "dkind": dkind})
